@@ -164,29 +164,20 @@ def run(ctx) -> None:
     ctx.check(oksel is True, RM, "InotifyObserver selects the emitter", "InotifyObserver does not select InotifyFullEmitter exactly when generate_full_events is set", io.loc if io else fi.loc)
 
     # ---- synthetic flag ownership
+    from ..fixtures import FX_SYNTH, must_fire, synthetic_marks
+
+    must_fire("C03/synthetic-only-from-generators", synthetic_marks, FX_SYNTH)
     gen_sites, other_sites, writes = set(), [], []
     for m in P.modules.values():
-        stack = [(m.tree, None)]
-        while stack:
-            node, owner = stack.pop()
-            for ch in ast.iter_child_nodes(node):
-                o = owner
-                if isinstance(ch, (ast.FunctionDef, ast.AsyncFunctionDef)) and owner is None:
-                    o = ch.name
-                stack.append((ch, o))
-                if isinstance(ch, ast.Call):
-                    for k in ch.keywords:
-                        if k.arg == "is_synthetic" and not (isinstance(k.value, ast.Constant) and k.value.value is False):
-                            site = (m.relpath, owner or "<module>", norm_stmt(ch))
-                            if owner in GENERATORS and m.name == "watchdog.events":
-                                gen_sites.add(site)
-                            else:
-                                other_sites.append((site, ch.lineno))
-                if isinstance(ch, (ast.Assign, ast.AugAssign, ast.AnnAssign)):
-                    tgts = ch.targets if isinstance(ch, ast.Assign) else [ch.target]
-                    for t in tgts:
-                        if isinstance(t, ast.Attribute) and t.attr == "is_synthetic":
-                            writes.append((m.relpath, ch.lineno, norm_stmt(ch)))
+        for owner, ch in synthetic_marks(m.tree):
+            if isinstance(ch, ast.Call):
+                site = (m.relpath, owner or "<module>", norm_stmt(ch))
+                if owner in GENERATORS and m.name == "watchdog.events":
+                    gen_sites.add(site)
+                else:
+                    other_sites.append((site, ch.lineno))
+            else:
+                writes.append((m.relpath, ch.lineno, norm_stmt(ch)))
     ctx.count("modules_scanned", len(P.modules))
     for s in sorted(gen_sites):
         ctx.ok(R2, f"{s[1]}: {s[2]}", s[0])
